@@ -10,6 +10,7 @@
 #include <dirent.h>
 #include <errno.h>
 #include <memory>
+#include <sys/resource.h>
 #include <sys/wait.h>
 #include <unistd.h>
 
@@ -37,8 +38,8 @@ static std::string gen_spec(Rng &r, int maxlen, int maxsize, bool allow_corpus, 
   int c = (int)r.below(10);
   if (allow_corpus && c < 3) return strf("corpus:%d", (int)r.below(100000));
   if (allow_float_fixed && c == 3) {
-    static const char *fx[] = {"addw", "subb", "mulll", "addq", "addf", "accl", "copyb"};
-    return strf("fixed:%s", fx[r.below(7)]);
+    static const char *fx[] = {"addw", "subb", "mulll", "addf", "accl", "copyb", "addq"};
+    return strf("fixed:%s", fx[r.below(maxsize >= 8 ? 7 : 6)]);
   }
   int len = 1 + (int)r.below(maxlen);
   unsigned fl = 0;
@@ -619,6 +620,8 @@ static void subject_reference(State &st, SubjectRef &s, int idx) {
     close(pfd[0]);
     unsetenv("ORC_DEBUG");
     alloc::set_poison(false, 0);
+    struct rlimit rl = {5, 6};  // a subject that cannot be compiled in bounded time is unusable, not a verdict
+    setrlimit(RLIMIT_CPU, &rl);
     orc_init();
     ProgMeta meta;
     OrcProgram *p = build_program(s.spec, strf("subj%d", idx), &meta);
